@@ -38,7 +38,7 @@ PROP = dict(
         dict(module="MemCacheWT", cfg="MC_MemCacheWT_thorough.cfg", tiers=("thorough",), timeout=1800),
         dict(module="KeyLRU", cfg="MC_KeyLRU_thorough.cfg", tiers=("thorough",), timeout=1800)],
     trace=dict(module="MemCacheTrace", cfg="MemCacheTrace.cfg", deque=True),
-    chunk_lines=6000,
+    chunk_lines=6000, max_rejections=4,
     nontrivial=_nontrivial,
     min_nontrivial=20,
     rule="four kinds of seeded traces on the real code: 'mem' sequential BlobMemoryCache histories (30-70 calls, 4 names, "
